@@ -3,8 +3,9 @@
 //! Engine A over the real `Patch::op` (see C07 for the seam): delegates d1..d3, a non-delegate
 //! patch author `a`, identity v1 = {d1,d2,d3; threshold t} and v2 = {d1,d2; threshold min(t,2)}
 //! (the document change that drops a delegate); every operation names the version it refers to.
-//! Default-branch heads: d1 → c2, d2 → c2, d3 → c1 where b0 ← c1 ← c2 and b0 ← cx, so c2 is not on
-//! d3's branch and cx is on nobody's.
+//! Commits: b0 ← c1 ← c2 and b0 ← cx. The first event also fixes, per delegate, the head of its default
+//! branch in the evaluating repository: c1, c2, or *no ref at all* (never pushed / not fetched); cx is
+//! on nobody's branch, and a delegate without a ref has no commit on its branch.
 //!
 //! Oracle (permissive "have recorded" reading — never more than the text): whenever
 //! `state = Merged{rev, commit}`, the number of distinct delegates (of the document their own
@@ -28,6 +29,7 @@ use radicle::git::Oid;
 use radicle::identity::RepoId;
 use radicle::node::device::Device;
 use radicle::storage::git::Repository;
+use radicle::storage::ReadRepository as _;
 use serde::{Deserialize, Serialize};
 use serde_json::{json, Value};
 use std::cell::RefCell;
@@ -42,8 +44,9 @@ const COMMITS: [&str; 3] = ["c1", "c2", "cx"];
 
 #[derive(Clone, Debug, PartialEq, Eq, PartialOrd, Ord, Serialize, Deserialize)]
 enum Ev {
-    /// Identity threshold of this run (first event).
-    Cfg(u8),
+    /// First event: identity threshold `t` and the default-branch head of d1, d2, d3 in the
+    /// evaluating repository (0 = c1, 1 = c2, 2 = the delegate has no default-branch ref at all).
+    Cfg { t: u8, heads: [u8; 3] },
     Merge { by: u8, idv: u8, rev: u8, commit: u8 },
     /// `a` proposes a second revision (r1).
     Revision,
@@ -54,8 +57,6 @@ enum Ev {
 }
 
 struct Cfg {
-    repo_path: PathBuf,
-    rid: RepoId,
     idc: [Oid; 2],
     thresholds: [usize; 2],
     env: EnvRepo,
@@ -65,7 +66,9 @@ struct Fix {
     base: PathBuf,
     actors: Vec<Device<MockSigner>>,
     keys: Vec<PublicKey>,
-    cfgs: BTreeMap<u8, Cfg>,
+    cfgs: BTreeMap<(u8, [u8; 3]), Cfg>,
+    /// Path and id of the base repository per threshold (branch refs are set per head table).
+    bases: BTreeMap<u8, (PathBuf, RepoId)>,
     b0: Oid,
     commits: [Oid; 3],
     pool: Vec<PublicKey>,
@@ -77,23 +80,40 @@ fn fix() -> &'static Fix {
     FIX.get().expect("fixture")
 }
 thread_local! {
-    static WREPO: RefCell<BTreeMap<u8, Repository>> = const { RefCell::new(BTreeMap::new()) };
+    static WREPO: RefCell<BTreeMap<(u8, [u8; 3]), Repository>> = const { RefCell::new(BTreeMap::new()) };
 }
 static WCOUNT: AtomicUsize = AtomicUsize::new(0);
 static STRIDE_SET: Mutex<BTreeSet<String>> = Mutex::new(BTreeSet::new());
 
-fn with_wrepo<T>(t: u8, f: impl FnOnce(&Repository) -> T) -> T {
+fn with_wrepo<T>(key: (u8, [u8; 3]), f: impl FnOnce(&Repository) -> T) -> T {
     WREPO.with(|c| {
         let mut c = c.borrow_mut();
-        let cfg = &fix().cfgs[&t];
-        let r = c.entry(t).or_insert_with(|| {
+        let r = c.entry(key).or_insert_with(|| {
+            let (path, rid) = &fix().bases[&key.0];
             let n = WCOUNT.fetch_add(1, Ordering::Relaxed);
             let dst = fix().base.join(format!("w{n}"));
-            copy_dir(&cfg.repo_path, &dst);
-            Repository::open(&dst, cfg.rid).expect("open repository copy")
+            copy_dir(path, &dst);
+            let repo = Repository::open(&dst, *rid).expect("open repository copy");
+            apply_heads(&repo, &fix().keys, &fix().commits, key.1);
+            repo
         });
         f(r)
     })
+}
+
+/// Point (or delete) `refs/namespaces/<d>/refs/heads/master` of the three delegates.
+fn apply_heads(repo: &Repository, keys: &[PublicKey], commits: &[Oid; 3], heads: [u8; 3]) {
+    for (d, h) in heads.iter().enumerate() {
+        match h {
+            0 | 1 => set_branch_head(repo, &keys[d], commits[*h as usize]),
+            _ => {
+                let name = format!("refs/namespaces/{}/refs/heads/master", keys[d]);
+                if let Ok(mut r) = repo.backend.find_reference(&name) {
+                    r.delete().expect("delete branch ref");
+                }
+            }
+        }
+    }
 }
 
 fn cleanup() {
@@ -107,12 +127,13 @@ fn die(msg: &str) -> ! {
     machinery(msg)
 }
 
-/// Is commit `c` (index) on the default branch of delegate `by` (index), by construction of the
-/// fixture: d1, d2 → c2 (contains c1), d3 → c1.
-fn on_branch(by: u8, c: u8) -> bool {
-    match (by, c) {
-        (0 | 1, 0 | 1) => true,
-        (2, 0) => true,
+/// Is commit `c` (0 = c1, 1 = c2, 2 = cx) on the default branch of a delegate whose head is `head`
+/// (0 = c1, 1 = c2, 2 = no ref), by construction b0 ← c1 ← c2, b0 ← cx: a delegate without a
+/// default-branch ref has nothing on its branch.
+fn on_branch(head: u8, c: u8) -> bool {
+    match (head, c) {
+        (0, 0) => true,
+        (1, 0 | 1) => true,
         _ => false,
     }
 }
@@ -121,11 +142,12 @@ fn is_delegate(by: u8, idv: u8) -> bool {
     by < 3 && (idv == 0 || by < 2)
 }
 
-fn build_fixture(stride: u64) -> Fix {
+fn build_fixture(tables: &[[u8; 3]], stride: u64) -> Fix {
     let base = tempfile::Builder::new().prefix("verif-c08-").tempdir().expect("tempdir").into_path();
     let actors: Vec<Device<MockSigner>> = (0..4u8).map(|i| dev(21 + i)).collect();
     let keys: Vec<PublicKey> = actors.iter().map(|a| *a.public_key()).collect();
     let mut cfgs = BTreeMap::new();
+    let mut bases = BTreeMap::new();
     let mut b0 = None;
     let mut commits = None;
     for t in 1..=3u8 {
@@ -159,30 +181,34 @@ fn build_fixture(stride: u64) -> Fix {
         let c1 = plain_commit(&repo, "c1", &[cb0]);
         let c2 = plain_commit(&repo, "c2", &[c1]);
         let cx = plain_commit(&repo, "cx", &[cb0]);
-        set_branch_head(&repo, &keys[0], c2);
-        set_branch_head(&repo, &keys[1], c2);
-        set_branch_head(&repo, &keys[2], c1);
-        let env = snapshot(&repo, &[c_v1, c_v2], &keys, &[cb0, c1, c2, cx]);
-        // The harness's own tables must describe the fixture.
-        for by in 0..3u8 {
-            for (ci, c) in [c1, c2, cx].iter().enumerate() {
-                let head = env.heads[&keys[by as usize]];
-                let real = *c == head || env.ancestry.contains(&(*c, head));
-                assert_eq!(real, on_branch(by, ci as u8), "branch table mismatch for {by}/{ci}");
-            }
-        }
-        assert_eq!(env.docs[&c_v1].doc.threshold(), t1);
-        assert_eq!(env.docs[&c_v2].doc.threshold(), t2);
+        assert_eq!(repo.identity_doc_at(c_v1).expect("v1").doc.threshold(), t1);
+        assert_eq!(repo.identity_doc_at(c_v2).expect("v2").doc.threshold(), t2);
         if let Some(prev) = commits {
             assert_eq!(prev, [c1, c2, cx], "plain commits must be identical in every configuration");
         }
         b0 = Some(cb0);
         commits = Some([c1, c2, cx]);
         let rid = repo.id;
-        cfgs.insert(t, Cfg { repo_path: repo_path(&storage, &rid), rid, idc: [c_v1, c_v2], thresholds: [t1, t2], env });
+        bases.insert(t, (repo_path(&storage, &rid), rid));
+        for heads in tables {
+            apply_heads(&repo, &keys, &[c1, c2, cx], *heads);
+            let env = snapshot(&repo, &[c_v1, c_v2], &keys, &[cb0, c1, c2, cx]);
+            // The harness's own table must describe what the real repository answers.
+            for by in 0..3usize {
+                for (ci, c) in [c1, c2, cx].iter().enumerate() {
+                    let real = match env.heads.get(&keys[by]) {
+                        Some(head) => *c == *head || env.ancestry.contains(&(*c, *head)),
+                        None => false,
+                    };
+                    assert_eq!(real, on_branch(heads[by], ci as u8), "branch table mismatch for {by}/{ci}");
+                    assert_eq!(env.heads.contains_key(&keys[by]), heads[by] != 2);
+                }
+            }
+            cfgs.insert((t, *heads), Cfg { idc: [c_v1, c_v2], thresholds: [t1, t2], env });
+        }
     }
     let pool: Vec<PublicKey> = (0..16u8).map(|i| *dev(200 + i).public_key()).collect();
-    Fix { base, actors, keys, cfgs, b0: b0.unwrap(), commits: commits.unwrap(), pool, stride }
+    Fix { base, actors, keys, cfgs, bases, b0: b0.unwrap(), commits: commits.unwrap(), pool, stride }
 }
 
 #[derive(Clone, Debug)]
@@ -206,6 +232,7 @@ enum Abstract {
 #[derive(Clone)]
 struct Sys {
     t: u8,
+    heads: [u8; 3],
     patch: Option<patch::Patch>,
     /// ids of r0, r1 (in-memory)
     revs: Vec<Oid>,
@@ -248,7 +275,7 @@ fn state_kind(s: &patch::State) -> &'static str {
 
 impl Sys {
     fn new() -> Sys {
-        Sys { t: 0, patch: None, revs: vec![], recorded: BTreeSet::new(), merged_threshold: None, log: vec![], hist: vec![], view: String::new() }
+        Sys { t: 0, heads: [0; 3], patch: None, revs: vec![], recorded: BTreeSet::new(), merged_threshold: None, log: vec![], hist: vec![], view: String::new() }
     }
 
     fn names(&self) -> Vec<(String, String)> {
@@ -269,12 +296,13 @@ impl Sys {
         }
     }
 
-    fn start(&mut self, t: u8) {
+    fn start(&mut self, t: u8, heads: [u8; 3]) {
         let f = fix();
-        let cfg = &f.cfgs[&t];
+        let cfg = f.cfgs.get(&(t, heads)).unwrap_or_else(|| die(&format!("configuration t={t} heads={heads:?} is not part of this run")));
         let root = syn_oid(0);
         let op = Op::new(root, NonEmpty::from_vec(root_actions()).unwrap(), f.keys[AUTHOR as usize], Timestamp::from_secs(T0), Some(cfg.idc[0]), Manifest::new(patch::TYPENAME.clone(), cob::Version::default()));
         self.t = t;
+        self.heads = heads;
         self.patch = Some(patch::Patch::from_root(op, &cfg.env).expect("patch root"));
         self.revs = vec![root];
         self.view = self.render();
@@ -282,7 +310,7 @@ impl Sys {
 
     fn apply(&mut self, by: u8, idv: u8, action: Abstract) -> Result<(), String> {
         let f = fix();
-        let cfg = &f.cfgs[&self.t];
+        let cfg = &f.cfgs[&(self.t, self.heads)];
         let op_id = syn_oid(self.log.len() as u32 + 1);
         let act = concrete(action, &|r| self.revs[r as usize]);
         let op = Op::new(op_id, NonEmpty::new(act), f.keys[by as usize], Timestamp::from_secs(T0), Some(cfg.idc[idv as usize]), Manifest::new(patch::TYPENAME.clone(), cob::Version::default()));
@@ -300,7 +328,7 @@ impl Sys {
 
     fn decode(ev: &Ev) -> Option<(u8, u8, Abstract)> {
         match ev {
-            Ev::Cfg(_) => None,
+            Ev::Cfg { .. } => None,
             Ev::Merge { by, idv, rev, commit } => Some((*by, *idv, Abstract::Merge { rev: *rev, commit: *commit })),
             Ev::Revision => Some((AUTHOR, 0, Abstract::Revision)),
             Ev::Redact { rev } => Some((AUTHOR, 0, Abstract::Redact { rev: *rev })),
@@ -310,7 +338,7 @@ impl Sys {
 
     fn conformance(hist: &[Ev]) -> Result<(), String> {
         let f = fix();
-        let Some(Ev::Cfg(t)) = hist.first().cloned() else {
+        let Some(Ev::Cfg { t, heads }) = hist.first().cloned() else {
             return Ok(());
         };
         let mut mem = Sys::new();
@@ -318,8 +346,8 @@ impl Sys {
             let _ = mem.step(ev);
         }
         let want = mem.normal_form();
-        let cfg = &f.cfgs[&t];
-        with_wrepo(t, |repo| {
+        let cfg = &f.cfgs[&(t, heads)];
+        with_wrepo((t, heads), |repo| {
             let type_name = patch::TYPENAME.clone();
             let root = Comb::write_root(repo, &type_name, Some(cfg.idc[0]), &f.actors[AUTHOR as usize], root_actions().iter().map(encode_action).collect(), vec![]);
             let mut comb = Comb::new(repo, type_name.clone(), root);
@@ -363,7 +391,7 @@ impl System for Sys {
 
     fn enabled(&self) -> Vec<Ev> {
         if self.patch.is_none() {
-            return vec![Ev::Cfg(1), Ev::Cfg(2), Ev::Cfg(3)];
+            return fix().cfgs.keys().map(|(t, heads)| Ev::Cfg { t: *t, heads: *heads }).collect();
         }
         let mut out = vec![];
         for by in 0..3u8 {
@@ -392,17 +420,17 @@ impl System for Sys {
     fn step(&mut self, ev: &Ev) -> StepOut {
         let out = match Sys::decode(ev) {
             None => {
-                let Ev::Cfg(t) = ev else { unreachable!() };
-                self.start(*t);
+                let Ev::Cfg { t, heads } = ev else { unreachable!() };
+                self.start(*t, *heads);
                 StepOut::ok(format!("cfg:threshold={t}"))
             }
             Some((by, idv, action)) => {
                 let f = fix();
-                let cfg = &f.cfgs[&self.t];
+                let cfg = &f.cfgs[&(self.t, self.heads)];
                 let pre = self.patch.as_ref().expect("started").state().clone();
                 // Model: what this operation records, by the harness's own tables.
                 if let Abstract::Merge { rev, commit } = action {
-                    if is_delegate(by, idv) && on_branch(by, commit) {
+                    if is_delegate(by, idv) && on_branch(self.heads[by as usize], commit) {
                         self.recorded.insert((by, rev, commit));
                     }
                 }
@@ -455,7 +483,7 @@ impl System for Sys {
                     Abstract::Merge { commit, .. } => format!(
                         "merge[{}{}{}]",
                         if is_delegate(by, idv) { "delegate" } else { "ex-delegate" },
-                        if on_branch(by, commit) { ",on-branch" } else { ",off-branch" },
+                        match (self.heads[by as usize], on_branch(self.heads[by as usize], commit)) { (2, _) => ",no-branch-ref", (_, true) => ",on-branch", (_, false) => ",off-branch" },
                         if self.patch.as_ref().unwrap().revision(&self.revs[match action { Abstract::Merge { rev, .. } => rev as usize, _ => 0 }].into()).is_none() { ",redacted-rev" } else { "" }
                     ),
                     Abstract::Revision => "revision".to_string(),
@@ -480,7 +508,7 @@ impl System for Sys {
     }
 
     fn canon(&self) -> Vec<u8> {
-        format!("{}|{}|{:?}|{:?}|{}", self.t, self.view, self.recorded, self.merged_threshold, self.revs.len()).into_bytes()
+        format!("{}{:?}|{}|{:?}|{:?}|{}", self.t, self.heads, self.view, self.recorded, self.merged_threshold, self.revs.len()).into_bytes()
     }
 
     fn fork(&self) -> Option<Self> {
@@ -494,7 +522,11 @@ fn main() {
     let thorough = ctx.tier == mcx::Tier::Thorough;
     // Depth counts the Cfg event: quick D=6 operations, thorough D=8 (the design asked for 4 / 6).
     let (depth, stride) = if thorough { (9usize, 400u64) } else { (7, 0) };
-    if FIX.set(build_fixture(stride)).is_err() {
+    // Branch-head tables (d1, d2, d3; 0 = c1, 1 = c2, 2 = no default-branch ref). quick: four tables in
+    // which every delegate takes every value; thorough and --replay: all 27.
+    let all: Vec<[u8; 3]> = (0..27u8).map(|i| [i / 9, (i / 3) % 3, i % 3]).collect();
+    let tables: Vec<[u8; 3]> = if thorough || ctx.replay.is_some() { all } else { vec![[1, 1, 0], [2, 0, 1], [0, 2, 2], [2, 2, 2]] };
+    if FIX.set(build_fixture(&tables, stride)).is_err() {
         unreachable!();
     }
 
@@ -524,10 +556,10 @@ fn main() {
         todo.insert(serde_json::to_string(s).unwrap());
     }
     // A fixed family that exercises threshold agreement, disagreement and a pruned merge.
-    for t in 1..=3u8 {
+    for (t, heads) in fix().cfgs.keys() {
         todo.insert(
             serde_json::to_string(&vec![
-                Ev::Cfg(t),
+                Ev::Cfg { t: *t, heads: *heads },
                 Ev::Merge { by: 0, idv: 0, rev: 0, commit: 0 },
                 Ev::Merge { by: 2, idv: 1, rev: 0, commit: 0 },
                 Ev::Merge { by: 1, idv: 0, rev: 0, commit: 0 },
@@ -546,22 +578,32 @@ fn main() {
                 Err(e) => die(&format!("conformance replay of {} failed: {e}", todo[i as usize])),
             }
         },
-        None::<mcx::sweep::NoPanic>,
+        // A panic of the code under test while the real evaluation runs is a violation with the same
+        // fingerprint the exploration gives it (a harness panic stays a machinery error).
+        Some(|i: u64, c: &mcx::panics::Caught| {
+            Violation::new(
+                format!("C08/panic@{}", c.site()),
+                format!("panic while the history is applied / evaluated from real commits: {} ({}:{})", c.message, c.file, c.line),
+                json!({"history": serde_json::from_str::<Value>(&todo[i as usize]).unwrap_or(Value::Null), "detail": {"panic": c.message, "file": c.file, "where": "conformance replay"}}),
+            )
+        }),
     );
 
     let mut cov = res.coverage(
-        "BFS over histories on one patch by non-delegate `a`: first event picks the identity threshold t in 1..3; then Merge(d1|d2|d3, refers to v1|v2, rev r0|r1, commit c1|c2|cx), Revision (r1), RevisionRedact(r0|r1), \
-         Lifecycle(open|draft|archived) by the author or d1; v2 drops d3 and has threshold min(t,2); branch heads d1,d2→c2, d3→c1, cx on no branch. Real Patch::op, failing op pruned with the object left as is. \
+        "BFS over histories on one patch by non-delegate `a`: first event picks the identity threshold t in 1..3 and the default-branch head of each delegate (c1 | c2 | no ref); then Merge(d1|d2|d3, refers to v1|v2, rev r0|r1, commit c1|c2|cx), Revision (r1), RevisionRedact(r0|r1), \
+         Lifecycle(open|draft|archived) by the author or d1; v2 drops d3 and has threshold min(t,2); cx on no branch. Real Patch::op, failing op pruned with the object left as is. \
          A state = canonical JSON of the patch + the model's recorded-merge set; distinct = distinct canonical states",
     );
     cov.insert("conformance_replays".into(), json!(st.evaluations));
+    cov.insert("conformance_outcomes".into(), json!(st.outcomes));
     cov.insert("conformance_stride".into(), json!(if stride > 0 { format!("1 in {stride} of all executed histories (by hash): {stride_n}; plus violating witnesses, samples and a fixed family") } else { "violating witnesses, deepest samples and a fixed family".to_string() }));
     let merged: u64 = res.outcomes.iter().filter(|(k, _)| k.ends_with("->merged")).map(|(_, v)| *v).sum();
     let conflicts: u64 = res.outcomes.iter().filter(|(k, _)| k.ends_with("->open+conflicts")).map(|(_, v)| *v).sum();
     cov.insert("steps_ending_merged".into(), json!(merged));
     cov.insert("steps_ending_in_conflict".into(), json!(conflicts));
-    cov.insert("config".into(), json!({"depth_including_cfg": depth, "thresholds": [1, 2, 3]}));
-    let violations = std::mem::take(&mut res.violations);
+    cov.insert("config".into(), json!({"depth_including_cfg": depth, "thresholds": [1, 2, 3], "branch_head_tables": tables, "configurations": fix().cfgs.len()}));
+    let mut violations = std::mem::take(&mut res.violations);
+    violations.merge(st.violations.clone());
     cleanup();
     ctx.finish(
         cov,
